@@ -21,6 +21,7 @@ package gradientDescent
 import   "math"
 
 import . "github.com/pbenner/autodiff"
+import   "github.com/pbenner/autodiff/verifhook"
 import . "github.com/pbenner/autodiff/algorithm"
 
 /* -------------------------------------------------------------------------- */
@@ -45,6 +46,7 @@ func gradientDescent(f func(ConstVector) (MagicScalar, error), x0 Vector, step, 
   gradient := make([]float64, x.Dim())
 
   for {
+    verifhook.Tick("gradientDescent.iter")
     // evaluate objective function
     s, err := f(x)
     if err != nil {
